@@ -89,6 +89,18 @@ pub fn step(w: &mut World, e: &Value) -> Value {
 				let mut r = w.receive(&wn, &sl, e["dest"].as_str().unwrap_or(""), s);
 				r["tamper"] = json!("feat1");
 				r
+			} else if tamper == "ttl_max" {
+				// the slate as delivered claims the largest cut-off height there is: never a reason to refuse
+				let s = w.pick(&sl, "S1", 0).map(|mut s| {
+					s.ttl_cutoff_height = u64::MAX;
+					s
+				});
+				if s.is_none() {
+					return json!({"ev": "receive", "w": wn, "sl": sl, "res": "skip"});
+				}
+				let mut r = w.receive(&wn, &sl, e["dest"].as_str().unwrap_or(""), s);
+				r["tamper"] = json!("ttl_max");
+				r
 			} else {
 				w.receive(&wn, &sl, e["dest"].as_str().unwrap_or(""), None)
 			}
